@@ -294,7 +294,9 @@ theorem recvItems_endStream_mem (cfg : CCfg) (enc : Option Compressor) :
       · cases h; exact List.mem_cons_self
       · cases h
     | webTrailer b => simp only [recvItems] at h; split at h <;> cases h
-    | raw d => simp [recvItems] at h
+    | raw d =>
+      simp only [recvItems, recvCutTail] at h
+      by_cases hr : rest.isEmpty = true <;> by_cases hd : d.isEmpty = true <;> simp [hr, hd] at h
     | errorJSON w => simp [recvItems] at h
     | errorJSONz w => simp [recvItems] at h
 
@@ -331,7 +333,9 @@ theorem recvItems_webTrailer_mem (cfg : CCfg) (enc : Option Compressor) :
       split at h
       · cases h; exact ⟨b, List.mem_cons_self, rfl⟩
       · cases h
-    | raw d => simp [recvItems] at h
+    | raw d =>
+      simp only [recvItems, recvCutTail] at h
+      by_cases hr : rest.isEmpty = true <;> by_cases hd : d.isEmpty = true <;> simp [hr, hd] at h
     | errorJSON w => simp [recvItems] at h
     | errorJSONz w => simp [recvItems] at h
 
@@ -498,5 +502,37 @@ example : (clientConnectStream { proto := .connect, kind := .server, accepts := 
     { status := 200, header := [], body := [.frame 0 [1], .endStream none []], trailer := [] }).result = none := by decide
 example : (clientConnectStream { proto := .connect, kind := .server, accepts := [], pool := rleCompressor, max := 0 }
     { status := 200, header := [], body := [.frame 0 [1]], trailer := [] }).result ≠ none := by decide
+
+/-! ### a streaming body that ends inside an envelope (round 13) -/
+
+/-- **cut_tail_never_clean**: bytes of an unfinished envelope at the end of a streaming body are
+    never the clean end of the stream - whatever follows in the HTTP trailers. -/
+theorem cut_tail_never_clean (cfg : CCfg) (enc : Option Compressor) (d : Bytes) (hd : d ≠ []) :
+    (recvItems cfg enc [.raw d]).2 = .fail codeInvalidArgument := by
+  cases d with
+  | nil => exact absurd rfl hd
+  | cons x xs => simp [recvItems, recvCutTail]
+
+/-- ... and that is what `envelopeReader.Read` says about 1-4 bytes followed by a clean end of
+    the body ("incomplete envelope"), under any read limit: the model of the structured body and
+    the model of the reader agree on the prefix case. -/
+theorem cut_tail_prefix_is_envRead (max : Nat) (d : Bytes) (h0 : 0 < d.length) (h5 : d.length < 5) :
+    ((envRead max).run takeExact { flat := d, tail := .eof }).1.outcome =
+      .fail { code := codeInvalidArgument, wrapsEOF := false } := by
+  have hne : ¬ (5 ≤ d.length) := by omega
+  have hl : d ≠ [] := by intro h; subst h; simp at h0
+  simp [envRead, Prog.run, takeExact, hne, RErr.isEOF, hl]
+
+/-- a cut tail after any number of whole messages: the messages are delivered, the call fails -/
+theorem cut_after_messages_fails (cfg : CCfg) (p : Bytes) (d : Bytes) (hd : d ≠ [])
+    (hp : p.length ≠ 0) (hfit : ¬ (cfg.max > 0 ∧ p.length > cfg.max)) :
+    recvItems cfg none [.frame 0 p, .raw d] = ([p], .fail codeInvalidArgument) := by
+  have := cut_tail_never_clean cfg none d hd
+  cases d with
+  | nil => exact absurd rfl hd
+  | cons x xs => simp [recvItems, recvCutTail, hp, hfit]
+
+example : (recvItems { proto := .grpc, kind := .server, accepts := [], pool := rleCompressor, max := 0 } none
+    [.frame 0 [1], .raw [0, 0, 0]]).2 = .fail codeInvalidArgument := by decide
 
 end ConnectModel.C04
